@@ -54,6 +54,8 @@ type Exec struct {
 	safeCount map[string]int
 	errs      []string
 	paramObs  []Observable
+	kinds     map[string]string // heap key -> leaf kind
+	leafTyp   map[string]types.Type
 	disabled  map[string]bool // Houdini: candidate invariants that failed
 	loopRefs  map[*ssa.BasicBlock]*State
 }
@@ -62,7 +64,7 @@ func newExec(prog *Program, ctr *Contracts, fn *ssa.Function, fc *FuncContract) 
 	return &Exec{prog: prog, ctr: ctr, sc: newScript(), top: fn, fc: fc,
 		hsort: map[string]Sort{}, written: map[string]bool{}, typeCache: map[string]types.Type{},
 		tags: map[string]int{}, strs: map[string]int{"": 0}, abstr: map[string]bool{}, externs: map[string]bool{},
-		assumed: map[string]bool{}, inlined: map[string]bool{}, safeCount: map[string]int{}}
+		assumed: map[string]bool{}, inlined: map[string]bool{}, safeCount: map[string]int{}, kinds: map[string]string{}, leafTyp: map[string]types.Type{}}
 }
 
 func (ex *Exec) fname() string {
@@ -127,6 +129,43 @@ func (ex *Exec) strLtFun() string {
 	return name
 }
 
+// umod/udiv: remainder and quotient by a non-constant divisor are uninterpreted
+// functions with the few (true) facts the proofs need; this keeps goals linear.
+func (ex *Exec) umod(a, b string) string {
+	if isLit(b) {
+		return mkApp("mod", a, b)
+	}
+	if _, ok := ex.sc.declared["umod"]; !ok {
+		ex.sc.DeclareFun("umod", []Sort{SInt, SInt}, SInt)
+		ex.sc.Assume("(forall ((a Int) (b Int)) (! (=> (and (>= a 0) (> b 0)) (and (<= 0 (umod a b)) (< (umod a b) b) (<= (umod a b) a))) :pattern ((umod a b))))")
+	}
+	return mkApp("umod", a, b)
+}
+
+func (ex *Exec) udiv(a, b string) string {
+	if isLit(b) {
+		return mkApp("div", a, b)
+	}
+	if _, ok := ex.sc.declared["udiv"]; !ok {
+		ex.sc.DeclareFun("udiv", []Sort{SInt, SInt}, SInt)
+		ex.sc.Assume("(forall ((a Int) (b Int)) (! (=> (and (>= a 0) (> b 0)) (and (<= 0 (udiv a b)) (<= (udiv a b) a))) :pattern ((udiv a b))))")
+	}
+	return mkApp("udiv", a, b)
+}
+
+// sidx(off, i) = off + i, kept as an uninterpreted symbol with its defining
+// axiom so that quantifier patterns over slice elements contain no arithmetic.
+func (ex *Exec) sidx(off, i string) string {
+	if off == "0" {
+		return i
+	}
+	if _, ok := ex.sc.declared["sidx"]; !ok {
+		ex.sc.DeclareFun("sidx", []Sort{SInt, SInt}, SInt)
+		ex.sc.Assume("(forall ((o Int) (i Int)) (! (= (sidx o i) (+ o i)) :pattern ((sidx o i))))")
+	}
+	return mkApp("sidx", off, i)
+}
+
 func (ex *Exec) errMsgFun() string {
 	return ex.sc.DeclareFun("errmsg", []Sort{SInt, SInt}, SInt)
 }
@@ -181,7 +220,7 @@ func (ex *Exec) valFacts(st *State, t types.Type, v Val) []string {
 		if l.Kind == "slice.len" {
 			// order: arr, off, len, cap
 			arr, ln, cp := ts[i-2], ts[i], ts[i+1]
-			out = append(out, mkApp("<=", "0", ln), mkApp("<=", ln, cp), mkImp(mkEq(arr, "0"), mkEq(cp, "0")), mkApp("<=", cp, intLit(two63)))
+			out = append(out, mkApp("<=", "0", ln), mkApp("<=", ln, cp), mkImp(mkEq(arr, "0"), mkEq(cp, "0")), mkApp("<", cp, intLit(two63)))
 		}
 		if l.Kind == "iface.tag" {
 			out = append(out, mkImp(mkEq(ts[i], "0"), mkEq(ts[i+1], "0")))
@@ -631,6 +670,14 @@ func (fr *Frame) loopEnv(l *Loop, phiVals map[*ssa.Phi]Val, st *State) *Env {
 	ex := fr.ex
 	env := fr.topEnv(st)
 	lc := &LoopCtx{Vars: map[string]TV{}}
+	savedSt := fr.st
+	fr.st = st
+	for n, tv := range fr.localsAtBlock(l.head, nil) {
+		if _, isParam := env.vars[n]; !isParam {
+			lc.Vars[n] = tv
+		}
+	}
+	fr.st = savedSt
 	for ph, v := range phiVals {
 		if ph.Comment == "rangeindex" {
 			lc.IterCount = mkApp("+", v.T, "1")
@@ -724,7 +771,7 @@ func (fr *Frame) enterLoop(l *Loop, phis []*ssa.Phi, phiEntry map[*ssa.Phi]Val) 
 	}
 	// alloc monotone
 	if containsStr(written, allocKey) {
-		fr.assume(mkApp(">=", ex.get(fr.st, allocKey, SInt), ex.get(envE.st, allocKey, SInt)))
+		fr.assume(mkApp(">=", ex.get(fr.st, allocKey, SInt), ex.get(stLoopEntry, allocKey, SInt)))
 	}
 	fr.loopCtx[l.head] = envH.loop
 }
@@ -826,6 +873,65 @@ func (fr *Frame) candidates(l *Loop, phiVals map[*ssa.Phi]Val, st *State) []cand
 			}
 			t := fmt.Sprintf("(forall ((o Int)) (! (=> (and (<= 0 o) (<= o %s)) (= (select %s o) (select %s o))) :pattern ((select %s o))))", v.alloc, cur, v.ref, cur)
 			out = append(out, candidate{name, t})
+		}
+	}
+	// frameX.K : in K, every pre-existing row other than those named by "modifies x[*]" is unchanged since entry
+	if fr.top && ex.fc != nil {
+		env0 := fr.topEnv(ex.entry)
+		env0.old = ex.entry
+		rows := map[string][]string{}
+		for i, m := range ex.fc.Modifies {
+			if _, ok := m.(*EStarAll); !ok {
+				continue
+			}
+			for _, ml := range fr.evalModLocs(env0, m, ex.fc, i) {
+				if strings.HasPrefix(ml.Key, "E.") && len(ml.Idx) == 1 {
+					rows[ml.Key] = append(rows[ml.Key], ml.Idx[0])
+				}
+			}
+		}
+		for _, k := range l.written {
+			if len(rows[k]) == 0 {
+				continue
+			}
+			name := fmt.Sprintf("L%d.frameX.%s", l.ord, k)
+			if ex.disabled[name] {
+				continue
+			}
+			srt := ex.hsort[k]
+			cur := ex.get(st, k, srt)
+			ent := ex.sc.Declare(ex.entryName(k), srt)
+			if cur == ent {
+				continue
+			}
+			var ne []string
+			for _, r := range rows[k] {
+				ne = append(ne, mkNot(mkEq("o", r)))
+			}
+			out = append(out, candidate{name, fmt.Sprintf("(forall ((o Int)) (! (=> (and (<= 0 o) (<= o %s) %s) (= (select %s o) (select %s o))) :pattern ((select %s o))))", alloc0, mkAnd(ne...), cur, ent, cur)})
+		}
+	}
+	// rowP.<param>.K : the backing row of slice parameter <param> is unchanged in K since function entry
+	for _, prm := range fr.fn.Params {
+		sl, ok := prm.Type().Underlying().(*types.Slice)
+		if !ok {
+			continue
+		}
+		pv := fr.vals[prm]
+		for _, loc := range ptrLocs(&Ptr{Root: "elem", Base: sl.Elem(), Ref: pv.Fs[0].T, Idx: "0", Elem: sl.Elem()}, sl.Elem()) {
+			if !containsStr(l.written, loc.Key) {
+				continue
+			}
+			name := fmt.Sprintf("L%d.rowP.%s.%s", l.ord, prm.Name(), loc.Key)
+			if ex.disabled[name] {
+				continue
+			}
+			cur := ex.get(st, loc.Key, loc.Sort)
+			ent := ex.sc.Declare(ex.entryName(loc.Key), loc.Sort)
+			if cur == ent {
+				continue
+			}
+			out = append(out, candidate{name, mkEq(mkSelect(cur, pv.Fs[0].T), mkSelect(ent, pv.Fs[0].T))})
 		}
 	}
 	var phs []*ssa.Phi
